@@ -112,6 +112,22 @@ def oracle_c15(ctx, budget_s):
                      "accepts the window, and '' before the start / between strides (judged by Spec)")
     g = D.Gen(rng, max_trials=5)
     t_end = ctx.elapsed() + budget_s
+    # corpus designs with derived factors first (explicit starts, strides, weighted dependencies)
+    for desc in O.corpus_designs(ctx.big()):
+        if ctx.elapsed() > ctx.t0_dummy if False else ctx.elapsed() > t_end - budget_s * 0.5:
+            break
+        if not any(f["window"] is not None for f in desc["factors"]):
+            continue
+        case = O.Case(ctx, desc)
+        if not case.build():
+            continue
+        case.regs = OD.regions(desc, case.geo)
+        ctx.count("C15.corpus")
+        OD.check_sound(ctx, case, "IterateSATGen", 4, "C15")
+        OD.check_sound(ctx, case, "RandomGen", 3, "C15")
+        ctx.case(("C15", "corpus", json.dumps(desc, sort_keys=True)), True)
+        if ctx.failures:
+            return
     while ctx.elapsed() < t_end:
         desc = O.gen_leaf(g, want_derived=rng.choice([1, 1, 2]), kinds=["AtMostKInARow", "ExactlyK"])
         der = [f for f in desc["factors"] if f["window"] is not None]
@@ -229,7 +245,7 @@ def oracle_c23(ctx, budget_s):
                     a = multiset(exps_to_seqs(ctx, case, mapped, "twin"))
                     if a != got:
                         report(ctx, "exhaust", case, "weighted design returns %d solutions (%d distinct prints), its copy-expanded twin %d (%d)" % (
-                            sum(got.values()), len(got), sum(a.values()), len(a)), None, known_for(case.regs, "C23", "exhaust"))
+                            sum(got.values()), len(got), sum(a.values()), len(a)), None, known_for(case.regs, "C23", "exhaust:twin"))
         ctx.case(("C23", json.dumps(case.desc, sort_keys=True)), True,
                  sample={"design": sample_desc(case), "twin": bool(tw)} if len(ctx.samples) < 3 else None)
         if ctx.failures:
@@ -379,7 +395,7 @@ def oracle_c25(ctx, budget_s):
         try:
             exps, done = case.exhaust("IterateSATGen")
         except (Exception, O.CallTimeout) as e:
-            report(ctx, "exception", case, "IterateSATGen raised %s on a Nest" % type(e).__name__, None, known_for(case.regs, "C25", "sat-exception"))
+            report(ctx, "exception", case, "IterateSATGen raised %s on a Nest" % type(e).__name__, None, known_for(case.regs, "C25", "sat-exception:" + type(e).__name__))
             continue
         seqs = exps_to_seqs(ctx, case, exps, "IterateSATGen")
         for s in seqs[:20]:
@@ -410,7 +426,7 @@ def oracle_c25(ctx, budget_s):
                 want = len(vo) * (len(vi) ** no)
                 if want != len(seqs):
                     report(ctx, "nest", case, "Nest has %d solutions, outer %d x inner %d ^ %d = %d expected" % (len(seqs), len(vo), len(vi), no, want),
-                           None, known_for(case.regs, "C25", "exhaust"))
+                           None, known_for(case.regs, "C25", "exhaust:count"))
         ctx.case(("C25", json.dumps(nest, sort_keys=True)), True,
                  sample={"nest": nest["block"], "trials": n, "solutions": len(seqs)} if len(ctx.samples) < 3 else None)
         if ctx.failures:
@@ -454,14 +470,14 @@ def oracle_c26(ctx, budget_s):
             try:
                 exps, done = case.exhaust("IterateSATGen")
             except (Exception, O.CallTimeout) as e:
-                report(ctx, "exception", case, "IterateSATGen raised %s" % type(e).__name__, None, known_for(case.regs, "C26", "sat-exception"))
+                report(ctx, "exception", case, "IterateSATGen raised %s" % type(e).__name__, None, known_for(case.regs, "C26", "sat-exception:" + type(e).__name__))
                 continue
             seqs = exps_to_seqs(ctx, case, exps, "IterateSATGen")
             verdicts = O.lean_valid(ctx, case.desc, seqs)
             for s, v in zip(seqs, verdicts):
                 if v:
                     report(ctx, "sound", case, "constraint given to the %s: returned sequence violates it (%s): %s" % (scope, ",".join(v), O.fmt_seq(case.desc, s)),
-                           {"seq": s}, known_for(case.regs, "C26", "sound"))
+                           {"seq": s}, known_for(case.regs, "C26", "sound:" + ("derived" if "derived" in v else ("crossing" if any(x.startswith("crossing") for x in v) else "constraint"))))
                     break
             if scope == "block":
                 for s in seqs[:30]:
@@ -477,13 +493,13 @@ def oracle_c26(ctx, budget_s):
                     vl = cl.valid_seqs()
                     if vl is not None and len(vl) ** r != len(seqs):
                         report(ctx, "scope", case, "Repeat of %d repetitions has %d solutions, the block alone has %d (expected %d)" % (
-                            r, len(seqs), len(vl), len(vl) ** r), None, known_for(case.regs, "C26", "exhaust"))
+                            r, len(seqs), len(vl), len(vl) ** r), None, known_for(case.regs, "C26", "exhaust:count"))
             else:
                 if done:
                     vg = case.valid_seqs()
                     if vg is not None and len(vg) != len(seqs):
                         report(ctx, "scope", case, "constraint given to the Repeat: %d solutions returned, %d sequences satisfy it on the whole sequence" % (
-                            len(seqs), len(vg)), None, known_for(case.regs, "C26", "exhaust"))
+                            len(seqs), len(vg)), None, known_for(case.regs, "C26", "exhaust:count"))
         ctx.case(("C26", json.dumps(rep, sort_keys=True)), bool(b["cs"]),
                  sample={"block": rep["block"], "combinator_variant": glob["block"]} if len(ctx.samples) < 3 else None)
         if ctx.failures:
@@ -514,13 +530,13 @@ def oracle_c29(ctx, budget_s):
             if r[1] == "Exception" and ("nsupported" in r[2] or "not supported" in r[2]):
                 ctx.count("C29.refused")
             else:
-                report(ctx, "exception", case, "SMGen raised %s: %s" % (r[1], r[2][:150]), {"strategy": "SMGen"}, known or known_for(case.regs, "C29", "sat-exception"))
+                report(ctx, "exception", case, "SMGen raised %s: %s" % (r[1], r[2][:150]), {"strategy": "SMGen"}, known or known_for(case.regs, "C29", "sat-exception:" + r[1]))
         elif r[0] == "ok":
             seqs = exps_to_seqs(ctx, case, r[1], "SMGen")
             for s, v in zip(seqs, O.lean_valid(ctx, case.desc, seqs)):
                 if v:
                     report(ctx, "sound", case, "SMGen returned a sequence that is not valid for the design (%s): %s" % (",".join(v), O.fmt_seq(case.desc, s)),
-                           {"strategy": "SMGen", "seq": s}, known or known_for(case.regs, "C29", "sound"))
+                           {"strategy": "SMGen", "seq": s}, known or known_for(case.regs, "C29", "sound:" + ("derived" if "derived" in v else "other")))
                     break
         ctx.case(("C29", json.dumps(case.desc, sort_keys=True)), r[0] == "ok",
                  sample={"design": sample_desc(case), "outcome": r[0]} if len(ctx.samples) < 3 else None)
@@ -595,7 +611,7 @@ def oracle_c05(ctx, budget_s):
         try:
             en = quiet(UCSolutionEnumerator, blk)
         except Exception as e:
-            report(ctx, "exception", case, "RandomGen set-up raised %s" % type(e).__name__, None, known_for(case.regs, "C05", "random-exception"))
+            report(ctx, "exception", case, "RandomGen set-up raised %s" % type(e).__name__, None, known_for(case.regs, "C05", "random-exception:" + type(e).__name__))
             continue
         n = blk.trials_per_sample()
         if en.solution_count() == 0:
@@ -607,7 +623,7 @@ def oracle_c05(ctx, budget_s):
             leaves = quiet(draw_tree, en, rounds, leftover)
         except Exception as e:
             report(ctx, "exception", case, "RandomGen draw raised %s: %s" % (type(e).__name__, str(e)[:100]), None,
-                   known_for(case.regs, "C05", "random-exception"))
+                   known_for(case.regs, "C05", "random-exception:" + type(e).__name__))
             continue
         ctx.count("C05.trees")
         if leaves is not None:
@@ -774,7 +790,7 @@ def oracle_c19(ctx, budget_s):
                             for s, v in zip(seqs, O.lean_valid(ctx, desc, seqs)):
                                 if v:
                                     report(ctx, "history", case, "after %s: %s returned an invalid sequence (%s)" % (hist, strat, ",".join(v)),
-                                           {"history": hist, "continuous": ncont}, known_for(case.regs, "C19", "sound"))
+                                           {"history": hist, "continuous": ncont}, known_for(case.regs, "C19", "sound:" + ("derived" if "derived" in v else ("crossing" if any(x.startswith("crossing") for x in v) else "constraint"))))
                                     broke = True
                                     break
                     elif exps is None or not exps:
@@ -798,7 +814,7 @@ def oracle_c19(ctx, budget_s):
                 except O.CallTimeout:
                     break
                 except Exception as e:
-                    known = known_for(case.regs, "C19", "random-exception" if op == "synth-random" else "sat-exception")
+                    known = known_for(case.regs, "C19", ("random-exception:" if op == "synth-random" else "sat-exception:") + type(e).__name__)
                     report(ctx, "history", case, "%s raised %s: %s after the calls %s" % (op, type(e).__name__, str(e)[:120], hist),
                            {"history": hist, "continuous": ncont}, known)
                     broke = True
@@ -869,7 +885,7 @@ def oracle_c22(ctx, budget_s):
         except (Exception, O.CallTimeout) as e:
             if isinstance(e, Exception):
                 report(ctx, "exception", case, "synthesize_trials (%s) with continuous factors raised %s: %s" % (strat, type(e).__name__, str(e)[:100]),
-                       None, known_for(case.regs, "C22", "random-exception" if strat == "RandomGen" else "sat-exception"))
+                       None, known_for(case.regs, "C22", ("random-exception:" if strat == "RandomGen" else "sat-exception:") + type(e).__name__))
             continue
         n = blk.trials_per_sample()
         ctx.count("C22.designs")
@@ -906,7 +922,7 @@ def oracle_c22(ctx, budget_s):
             v = O.lean_valid(ctx, desc, [s])[0]
             if v or problems:
                 report(ctx, "sound", case, "discrete part of a sequence with continuous factors is not valid (%s)" % ",".join(v or problems),
-                       None, known_for(case.regs, "C22", "sound"))
+                       None, known_for(case.regs, "C22", "sound:" + ("derived" if "derived" in (v or []) else "other")))
                 break
         ctx.case(("C22", json.dumps(desc, sort_keys=True), width, stride, start), True,
                  sample={"design": sample_desc(case), "window": {"width": width, "stride": stride, "start": start}, "threshold": thr} if len(ctx.samples) < 3 else None)
